@@ -146,6 +146,12 @@ def run(ctx):
     install()
     rng = ctx.rng
     idx = 0
+    import os
+    if os.environ.get("C11_ONLY_PRUNING"):
+        from checks import reactor_common as RC
+        RC.pruning_differential(ctx, budget_frac=1e9)
+        flush(ctx)
+        return
     if ctx.quick:
         spaces = [("classes <=3 nodes (full alphabet)", [r for n in (1, 2, 3) for r in WG.classes(n)]),
                   ("classes of 4 nodes (2 elements x orders{1,2})", WG.classes(4, WG.RED_NODE, [1, 2]))]
